@@ -800,6 +800,12 @@ func c11(c *core.Ctx) {
 		}
 		c.EndRule()
 	}
+
+	// ---------------------------------------------------------------- R10 (shared)
+	// "no request makes the server panic": every allocation sized by a preface is dominated by the sign and the
+	// upper-bound test (C07/R1) — a negated MinInt32 preface stays negative and make() panics
+	c.Borrow("C07", map[string]string{"R1": "R10"}, c07)
+
 }
 
 func sameTable(a, b map[string]string) bool {
